@@ -533,3 +533,39 @@ def _path_to(cfg, target, pred, skip_edge=None, restart_at_loopheads=False):
                     continue
                 work.append((s, path + [s]))
     return None
+
+
+# --------------------------------------------------------------------------------------
+# T6: the default comparator orders by the common prefix first, then by length
+
+def rule_t6(prog, rep, rid='T6'):
+    from .interp import run_function
+    rep.rule(rid, 'the default key comparator returns the sign of the byte comparison of the common prefix, and for an equal prefix '
+                  'the sign of the length difference (decision table evaluated for all 9 sign/length-order cases)')
+    f = None
+    for x in prog.funcs_in(UNIT):
+        if not x.static and len(x.params) == 4 and x.rettype == 'int' and any(
+                y.get('kind') == 'CallExpr' and prog.callee_name(y) == 'memcmp' for y in walk(x.body)):
+            f = x
+            break
+    rep.broken_if(f is None, 'default comparator (4 parameters, calls memcmp) not found in qtreetbl.c')
+    if f is None:
+        return
+    pn = [p.get('name') for p in f.params]
+    for (n1, n2) in ((1, 2), (2, 2), (3, 2)):
+        for m in (-1, 0, 1):
+            rep.instance(rid)
+            seen_len = []
+
+            def memcmp_stub(vals, texts):
+                seen_len.append(vals[2] if len(vals) > 2 else None)
+                return m
+            r = run_function(prog, f, [1000, n1, 2000, n2], {'memcmp': memcmp_stub})
+            want = m if m != 0 else ((n1 > n2) - (n1 < n2))
+            ok = r is not None and ((r > 0) - (r < 0)) == want and (not seen_len or seen_len[0] == min(n1, n2))
+            rep.oblige(rid, ok, {'len1': n1, 'len2': n2, 'prefix_cmp': m, 'result': r, 'expected_sign': want})
+            if not ok:
+                rep.violation(rid, f, f.line, 'case:%d,%d,%d' % (n1, n2, m),
+                              '%s(len %d, len %d) with the common prefix comparing %s returns %s (memcmp length %s); expected sign %d: '
+                              'keys that are prefixes of one another are mis-ordered' % (
+                                  f.name, n1, n2, {-1: 'less', 0: 'equal', 1: 'greater'}[m], r, seen_len[:1], want))
